@@ -259,6 +259,9 @@ func connectMsg(dst *peerSt, hopFault string) *pbv2.HopMessage {
 func (w *world) readStop(st *stopSide) *peerSt {
 	var m pbv2.StopMessage
 	complete, err := st.ep.takeMsg(&m)
+	if !complete && err == nil && st.s.Finished() {
+		return nil // the relay gave the stream up before the handshake (resource refusal)
+	}
 	if !complete || err != nil {
 		w.failf("relay opened a stop stream to p%d but sent no well-formed message (complete=%v err=%v)", st.dst.idx, complete, err)
 	}
@@ -378,9 +381,15 @@ func (w *world) opConnect(src *peerSt, cs *connSt, dst *peerSt, hopFault, spanFa
 	var st *stopSide
 	if len(stops) == 1 {
 		st = stops[0]
-		if named := w.readStop(st); named != src {
+		named := w.readStop(st)
+		if named == nil {
+			st.ep.c.Close()
+			st = nil
+		} else if named != src {
 			w.failf("stop CONNECT to p%d names p%d as the source, the request came from p%d", dst.idx, named.idx, src.idx)
 		}
+	}
+	if st != nil {
 		switch sc.Pre {
 		case "srcReset":
 			ep.c.Reset()
@@ -441,6 +450,7 @@ func (w *world) opConnect(src *peerSt, cs *connSt, dst *peerSt, hopFault, spanFa
 // established circuits
 
 func (w *world) removeCircuit(c *circ) {
+	c.gone = true
 	for i, x := range w.circuits {
 		if x == c {
 			w.circuits = append(w.circuits[:i:i], w.circuits[i+1:]...)
@@ -474,7 +484,7 @@ func (w *world) send(c *circ, ab bool, n int) {
 		halfClosed = c.baClosed
 		dir = "destination->source"
 	}
-	if n <= 0 || halfClosed || from.c.Closed() {
+	if n <= 0 || halfClosed || c.gone || from.c.Closed() {
 		return
 	}
 	seed := uint64(c.seq)*2 + 1
@@ -508,9 +518,53 @@ func (w *world) send(c *circ, ab bool, n int) {
 	if (!w.cfg.Limited || int64(len(*sent)) <= w.cfg.Data) && len(*recv) != len(*sent) {
 		w.failf("circuit #%d %s: %d of %d bytes arrived although the data limit (%v/%d) is not reached", c.seq, dir, len(*recv), len(*sent), w.cfg.Limited, w.cfg.Data)
 	}
+	w.settle(c)
+}
+
+// settle: once both directions are finished (half-closed or Limit.Data used up) the
+// relay ends the circuit by itself.
+func (w *world) settle(c *circ) bool {
+	if c.gone || !w.dirDone(c, true) || !w.dirDone(c, false) {
+		return false
+	}
+	w.label("circuit-ended-both-directions-finished")
+	w.checkEnded(c, "has both directions finished")
+	w.removeCircuit(c)
+	return true
+}
+
+// dirDone: the relay has stopped reading from that party (its direction was half-closed
+// or has used up Limit.Data), so it cannot notice that the party went away.
+func (w *world) dirDone(c *circ, fromSrc bool) bool {
+	if fromSrc {
+		return c.abClosed || (w.cfg.Limited && int64(len(c.recvB)) >= w.cfg.Data)
+	}
+	return c.baClosed || (w.cfg.Limited && int64(len(c.recvA)) >= w.cfg.Data)
+}
+
+// partyGone: one party reset its stream or lost its connection. The circuit ends at
+// once when the relay is still reading from that party; otherwise the relay only finds
+// out when the other party writes or closes (or at Limit.Duration): the other party
+// closes here.
+func (w *world) partyGone(c *circ, srcSide bool, why string) {
+	synctest.Wait()
+	if w.dirDone(c, srcSide) {
+		w.label("party-gone-after-its-direction-finished")
+		if srcSide {
+			c.B.c.Close()
+		} else {
+			c.A.c.Close()
+		}
+		synctest.Wait()
+	}
+	w.checkEnded(c, why)
+	w.removeCircuit(c)
 }
 
 func (w *world) endCircuit(c *circ, how string) {
+	if c.gone {
+		return
+	}
 	w.label("end:" + how)
 	switch how {
 	case "close":
@@ -523,22 +577,23 @@ func (w *world) endCircuit(c *circ, how string) {
 		c.A.c.CloseWrite()
 		c.abClosed = true
 		synctest.Wait()
+		if w.settle(c) {
+			break
+		}
 		w.send(c, false, 3)
+		if c.gone {
+			break
+		}
 		c.B.c.CloseWrite()
 		c.baClosed = true
 		synctest.Wait()
-		w.checkEnded(c, "was half-closed by both parties")
-		w.removeCircuit(c)
+		w.settle(c)
 	case "srcReset":
 		c.A.c.Reset()
-		synctest.Wait()
-		w.checkEnded(c, "was reset by the source")
-		w.removeCircuit(c)
+		w.partyGone(c, true, "was reset by the source")
 	case "dstReset":
 		c.B.c.Reset()
-		synctest.Wait()
-		w.checkEnded(c, "was reset by the destination")
-		w.removeCircuit(c)
+		w.partyGone(c, false, "was reset by the destination")
 	case "idle":
 		if !c.deadline.IsZero() {
 			if d := time.Until(c.deadline); d > 0 {
@@ -603,8 +658,12 @@ func (w *world) disconnect(p *peerSt, cs *connSt) {
 	for _, c := range append([]*circ(nil), w.circuits...) {
 		if c.srcConn == cs || c.dstConn == cs {
 			w.label("circuit-ended-by-disconnect")
-			w.checkEnded(c, "lost the connection of a party")
-			w.removeCircuit(c)
+			if c.srcConn == cs && c.dstConn == cs {
+				w.checkEnded(c, "lost the connection of both parties")
+				w.removeCircuit(c)
+			} else {
+				w.partyGone(c, c.srcConn == cs, "lost the connection of a party")
+			}
 		}
 	}
 	switch {
